@@ -67,7 +67,7 @@ def check_dir(ctx, od, name, user_headers):
         if p.returncode != 0:
             notes.append("%s/%s: gfortran could not process the module (%s)" % (name, os.path.basename(f), p.stderr.strip().split("\n")[-1][:120]))
             continue
-        chk, und, mism, unb, smism = protocmp.compare(p.stdout, texts)
+        chk, und, mism, unb, smism = protocmp.compare(p.stdout, texts, open(f, errors="replace").read())
         checked += chk
         undec += und
         for m in mism:
